@@ -23,7 +23,8 @@ def _cfgs(tier):
                 ("StoSOO", dict(n=100, k=1, h_max=2)), ("StoSOO", dict(n=100, k=2, h_max=2)), ("StoSOO", dict(n=100, k=2, h_max=3)),
                 ("DOO", dict(n=100)), ("DOO", dict(n=100, delta=["pow", 1.0, 0.5])), ("DOO", dict(n=100, delta=["pow", 3.0, 0.9]))]
     for algo, params in variants:
-        for part, K, box in (("Binary", None, "u1"), ("Kary", 3, "u1"), ("DimensionBinary", None, "u2"), ("Binary", None, "u2")):
+        for part, K, box in [("Binary", None, "u1"), ("Kary", 3, "u1"), ("DimensionBinary", None, "u2"), ("Binary", None, "u2")] + \
+                ([("RandomBinary", None, "u1"), ("RandomKary", 3, "mix2")] if tier == "thorough" else []):
             out.append(configs.cfg(algo, part, K, configs.BOXES[box], **params))
     return out
 
@@ -32,7 +33,7 @@ def tasks(tier, seed):
     ts = []
     for i, cfg in enumerate(_cfgs(tier)):
         lab = "%s/%s%s/%dd/%d" % (cfg["algo"], cfg["part"], cfg["K"] or "", len(cfg["domain"]), i)
-        d2 = cfg["part"] == "Binary" and len(cfg["domain"]) == 2
+        d2 = (cfg["part"] == "Binary" and len(cfg["domain"]) == 2) or "Random" in cfg["part"]
         Tq = (6 if d2 else 8) if tier == "quick" else (8 if d2 else 10)
         ts.append({"kind": "algo", "label": "full/" + lab, "cfg": cfg, "mode": "full", "T": Tq,
                    "R": list(configs.R3), "rng_k": 1 if d2 else None, "cost": 5})
